@@ -93,9 +93,22 @@ pub enum SubjectAct {
 }
 
 pub fn alphabet(wide: bool) -> Vec<SubjectAct> {
-    let eps: Vec<u32> = if wide { vec![1, 2, 3] } else { vec![1, 2] };
-    let toks: Vec<Vec<u8>> = if wide { vec![vec![0xA1], vec![0xB2, 0xB3], vec![]] } else { vec![vec![0xA1], vec![0xB2, 0xB3]] };
-    let paths: Vec<&'static str> = if wide { vec!["t"] } else { vec!["t", "s/u"] };
+    alphabet_mode(if wide { 1 } else { 0 })
+}
+
+/// mode 0: 2 endpoints x 2 tokens x 2 paths; 1: 3 endpoints x 3 tokens x 1 path; 2: 2 endpoints x 1 token x 3 paths
+pub fn alphabet_mode(mode: u8) -> Vec<SubjectAct> {
+    let eps: Vec<u32> = if mode == 1 { vec![1, 2, 3] } else { vec![1, 2] };
+    let toks: Vec<Vec<u8>> = match mode {
+        1 => vec![vec![0xA1], vec![0xB2, 0xB3], vec![]],
+        2 => vec![vec![0xA1]],
+        _ => vec![vec![0xA1], vec![0xB2, 0xB3]],
+    };
+    let paths: Vec<&'static str> = match mode {
+        1 => vec!["t"],
+        2 => vec!["t", "s/u", "v"],
+        _ => vec!["t", "s/u"],
+    };
     let mut a = Vec::new();
     for &e in &eps {
         for t in &toks {
